@@ -46,6 +46,8 @@ TRUSTED = [
     "only the eight anchor files are walked: a global draw inside another deephyper module (samplers, surrogates, GMMSampler) is seen by the process pairs only",
 ]
 ASSUMPTIONS = [
+    "state shared with the caller: another search built from the same HpProblem object may draw at any time (process_pairs 'other_search_on_same_problem'); "
+    "Optimizer / Space keep the space objects they are given (Keys.v S_InternalAlias): only Search._problem is an API boundary",
     "num_workers = 1, serial evaluator, deterministic async run-function; the same sequence of search()/ask()/tell() calls in both processes",
     "random_state is a Python int; transfer learning (fit_generative_model / fit_search_space) is outside the property's quantifier",
 ]
@@ -191,6 +193,10 @@ def describe(case):
         d.append("with_failures")
     if case.get("fail_region"):
         d += ["fails_around_optimum", "filter_failures=" + kw.get("filter_failures", "min")]
+    if case.get("interfere"):
+        d.append("other_search_on_same_problem=" + case["interfere"])
+    if case.get("threads"):
+        d.append("n_jobs=%d" % kw.get("n_jobs", 1))
     return d
 
 
@@ -206,7 +212,7 @@ def sig_of(case, clause, **extra):
 
 # ---------------------------------------------------------------------------------------------- children
 def spec_of(case, seed, perturb):
-    s = {k: case[k] for k in ("search", "space", "kwargs", "nobj", "fail_mod", "fail_region", "mode", "evals", "batches") if k in case}
+    s = {k: case[k] for k in ("search", "space", "kwargs", "nobj", "fail_mod", "fail_region", "mode", "evals", "batches", "interfere", "threads", "repeat") if k in case}
     s.update(seed=seed, perturb=perturb)
     return s
 
@@ -319,6 +325,8 @@ def base_case(rng, **k):
     s = rng.randrange(1, 10**6)
     c.update(seed=s, seed2=s + 1 + rng.randrange(1000), pa=rng.randrange(1, 50), ha=rng.randrange(1, 1000))
     c.update(pb=c["pa"] + 1 + rng.randrange(50), hb=c["ha"] + 1 + rng.randrange(1000))
+    if c.get("interfere"):
+        c["pb"] = c["pa"] + 1   # the number of sampling calls of the interfering search is 1 + perturb % 4: never the same in the two processes
     return c
 
 
@@ -354,18 +362,36 @@ def stress_catalogue(rng):
         base_case(rng, space="flat_mixed", fail_region=0.4, evals=12, kwargs=K(surrogate_model="RF", acq_func="EI", filter_failures="min")),
         base_case(rng, space="discrete", evals=12, kwargs=K(acq_func="UCBd")),
         base_case(rng, space="discrete", mode="ask", batches=[2, 3, 2, 3, 2], kwargs=K(surrogate_model="DUMMY", acq_func="UCB", multi_point_strategy="cl_max")),
+    ] + shared_catalogue(rng)
+
+
+def shared_catalogue(rng):
+    """(a) the observed search shares its HpProblem OBJECT with another search (other seed) built after it in the same process, which draws before
+    and between the steps of the observed one - a different number of sampling calls in the two processes; (b) CBO with n_jobs = 4: the
+    per-dimension sampling tasks of Space.rvs run in a thread pool (another thread-switch interval in each process, two runs per process)."""
+    RE = dict(population_size=5, sample_size=2)
+    return [
+        base_case(rng, search="Random", space="cond", evals=8, interfere="Random"),
+        base_case(rng, search="Random", space="flat_many", mode="ask", batches=[2, 1, 3, 2], interfere="RegEvo"),
+        base_case(rng, search="RegEvo", space="flat_mixed", mode="ask", batches=[3, 3, 2, 2, 2], kwargs=RE, interfere="Random"),
+        base_case(rng, search="CBO", space="cond", evals=10, kwargs=K(acq_func="UCBd"), interfere="Random"),
+        base_case(rng, search="CBO", space="cond", mode="ask", batches=[2, 2, 2, 2, 2], kwargs=K(acq_func="UCB", multi_point_strategy="cl_max"), interfere="CBO"),
+        base_case(rng, space="flat_many", evals=14, threads=True, repeat=2, kwargs=K(surrogate_model="DUMMY", acq_func="UCB", n_jobs=4)),
+        base_case(rng, space="flat_many", evals=10, threads=True, repeat=2, kwargs=K(surrogate_model="ET", acq_func="UCBd", n_jobs=4)),
+        base_case(rng, space="flat_many", evals=10, threads=True, repeat=2, kwargs=K(surrogate_model="DUMMY", acq_func="UCB", n_jobs=1)),
     ]
 
 
 def random_case(rng, surrogates=("DUMMY", "ET", "RF"), search=None):
     search = search or rng.choice(["CBO"] * 6 + ["Random", "RegEvo"])
     space = rng.choice(SPACES)
+    inter = dict(interfere=rng.choice(["Random", "RegEvo", "CBO"])) if search != "CBO" and rng.random() < 0.35 else {}
     if search == "Random":
-        return base_case(rng, search=search, space=space, **(dict(mode="ask", batches=[rng.randrange(1, 4) for _ in range(4)]) if rng.random() < 0.4 else dict(evals=rng.randrange(8, 13))))
+        return base_case(rng, search=search, space=space, **inter, **(dict(mode="ask", batches=[rng.randrange(1, 4) for _ in range(4)]) if rng.random() < 0.4 else dict(evals=rng.randrange(8, 13))))
     if search == "RegEvo":
         pop = rng.randrange(4, 8)
         kw = dict(population_size=pop, sample_size=rng.randrange(2, pop))
-        return base_case(rng, search=search, space=space, kwargs=kw, **(dict(mode="ask", batches=[3, 3, 2, 2, 3, 2]) if rng.random() < 0.3 else dict(evals=pop + rng.randrange(6, 10))))
+        return base_case(rng, search=search, space=space, kwargs=kw, **inter, **(dict(mode="ask", batches=[3, 3, 2, 2, 3, 2]) if rng.random() < 0.3 else dict(evals=pop + rng.randrange(6, 10))))
     sm = rng.choice(list(surrogates))
     acqs = ["UCB", "EI", "PI", "UCBd", "EId", "PId", "MES", "MESd", "gp_hedge", "gp_hedged"]
     if sm == "GP":
@@ -384,6 +410,11 @@ def random_case(rng, surrogates=("DUMMY", "ET", "RF"), search=None):
         c.update(evals=rng.randrange(8, 14))
     if c["nobj"] > 1:
         kw["moo_scalarization_strategy"] = rng.choice(["Chebyshev", "Linear", "PBI", "AugChebyshev", "Quadratic"])
+    if rng.random() < 0.12:
+        kw["n_jobs"] = rng.choice([1, 4])
+        c.update(threads=True, repeat=2, space=rng.choice(["flat_many", "flat_mixed"]) if sm != "GP" else "flat_real")
+    if rng.random() < 0.15 and sm != "GP":
+        c.update(interfere=rng.choice(["Random", "RegEvo", "CBO"]))
     if rng.random() < 0.2 and "filter_failures" not in kw:
         kw["filter_failures"] = rng.choice(["mean", "min", "ignore"])
     return base_case(rng, **c)
@@ -396,7 +427,13 @@ def probes(rng):
     """(tags, case): one representative per way of reaching code; the tags are matched against the text (function, callee, guard) of a call
     site that the static check rejects, so that the search for a differing pair starts with the configurations that execute it."""
     B = [2, 2, 2, 2, 2, 2, 2]
+    RE = dict(population_size=5, sample_size=2)
     return [
+        (["self._problem=", "sharedstate", "randomsearch"], base_case(rng, search="Random", space="cond", evals=8, interfere="Random")),
+        (["self._problem=", "sharedstate", "regularizedevolution"], base_case(rng, search="RegEvo", space="flat_mixed", mode="ask", batches=[3, 3, 2, 2, 2], kwargs=RE, interfere="Random")),
+        (["self._problem=", "self.space=", "self.config_space=", "config_space"], base_case(rng, search="CBO", space="cond", mode="ask", batches=[2, 2, 2, 2, 2], kwargs=K(acq_func="UCB", multi_point_strategy="cl_max"), interfere="CBO")),
+        (["delayed(", "parallel", "_sample_dimension", "n_jobs"], base_case(rng, space="flat_many", evals=14, threads=True, repeat=2, kwargs=K(surrogate_model="DUMMY", acq_func="UCB", n_jobs=4))),
+        (["delayed(", "parallel", "fmin_l_bfgs_b", "n_jobs"], base_case(rng, space="flat_real", evals=10, threads=True, repeat=2, kwargs=K(surrogate_model="GP", acq_func="EI", n_jobs=4))),
         (["update_next", "fail", "ignore", "cbo._tell", "opt_y"], base_case(rng, space="flat_real", fail_region=0.4, evals=14, kwargs=K(acq_func="UCBd", filter_failures="ignore"))),
         (["update_next", "fail", "ignore", "config_space"], base_case(rng, space="cond", fail_region=0.4, evals=14, kwargs=K(acq_func="UCBd", filter_failures="ignore"))),
         (["duplicat", "sampled", "filter", "categor"], base_case(rng, space="discrete", evals=12, kwargs=K(acq_func="UCBd"))),
@@ -430,7 +467,7 @@ def targeted_classes(rng):
             return [c for _, c in pr[:6]], ["translator failed closed: " + a["reason"]]   # unknown shape somewhere: every class is a target
         cs = a["consts"]
         known = {cs[k] for k in KNOWN_KEYS}
-        old_env = {cs["S_SdvSetOrder"], cs["S_RegevoSetOrder"]}
+        old_env = {cs["S_SdvSetOrder"], cs["S_RegevoSetOrder"], cs["S_InternalAlias"]}
         hits, scored = [], []
         for n, (tags, c) in enumerate(pr):
             bad = [a["rng_sites"][i] for i in m.call(F_BAD, model_args(c)) if a["rng_sites"][i]["num"][1] not in known]
@@ -491,6 +528,8 @@ def shrink_pair(case):
         yield dict(case, fail_mod=0)
     if case.get("fail_region"):
         yield dict(case, fail_region=0.0)
+    if case.get("repeat", 1) > 1:
+        yield dict(case, repeat=case["repeat"] - 1)
     if case["space"] != "flat_real":
         yield dict(case, space="flat_real")
     kw = case.get("kwargs", {})
@@ -607,7 +646,7 @@ def check_trace(case):
     return res
 
 
-def gen_trace(rng, tier):
+def gen_trace_cases(rng, tier):
     n = 40 if tier == "thorough" else 10
     cat = quick_catalogue(rng)
     if tier != "thorough":   # the usual classes plus three of the stress configurations (failing run-function, discrete space)
@@ -618,6 +657,12 @@ def gen_trace(rng, tier):
         yield dict(c, evals=min(c.get("evals", 9), 10)) if "evals" in c else c
     for _ in range(max(0, n - len(cat))):
         yield random_case(rng, surrogates=("DUMMY", "ET", "RF", "GP") if rng.random() < 0.15 else ("DUMMY", "ET", "RF"))
+
+
+def gen_trace(rng, tier):
+    # the interfering search of the shared-problem pairs belongs to another class (its draws would be attributed to the observed class): not traced
+    for c in gen_trace_cases(rng, tier):
+        yield {k: v for k, v in c.items() if k != "interfere"}
 
 
 def streams(tier):
